@@ -24,11 +24,13 @@ FAMILIES = {
                       ("MC_ClientLib_C27q.cfg", 13, 15, "all")], devs=[], quick_sample=150, sim=(60, 30),
                 repeat=1, repeat_thorough=3, vectors=True),
     "C28": dict(cfgs=[("MC_ClientLib_C28.cfg", 5, 6), ("MC_ClientLib_C28ka.cfg", 5, 6),
-                      ("MC_ClientLib_C28r.cfg", 5, 6, "all")], devs=["KaSync", "NilOnTerminate"],
+                      ("MC_ClientLib_C28r.cfg", 5, 6, "all"),
+                      ("MC_ClientLib_C28g.cfg", 8, 9, "all")], devs=["KaSync", "NilOnTerminate"],
                 devsigs=["C28/goroutines-after-end"],
                 devcfg="MC_ClientLib_C28ka.cfg", quick_sample=2600, sim=(60, 25)),
     "C33": dict(cfgs=[("MC_ClientLib_C33.cfg", 7, 9), ("MC_ClientLib_C33b.cfg", 7, 8), ("MC_ClientLib_C33c.cfg", 7, 8),
-                      ("MC_ClientLib_C33w.cfg", 10, 12, "all")], devs=["KaSync"],
+                      ("MC_ClientLib_C33w.cfg", 10, 12, "all"),
+                      ("MC_ClientLib_C33d.cfg", 9, 10, "all")], devs=["KaSync"],
                 devsigs=["C33/keepalive-ping-while-not-active"],
                 devcfg="MC_ClientLib_C33.cfg", quick_sample=900, sim=(60, 30)),
     "C16": dict(cfgs=[("MC_ClientLib_C16.cfg", 8, 9)], devs=["RegisterReject"], devsigs=["C16/register-retransmit-rejected"], devmax=6,
